@@ -286,6 +286,13 @@ func sequential(seed int64, retain uint, nOps int) {
 			for len(wireIDs(s, from)) < len(want) && time.Now().Before(deadline) {
 				time.Sleep(100 * time.Microsecond)
 			}
+			if failFirst {
+				// the failing retransmission is attempted by the resend goroutine; wait
+				// until that attempt is in the log (it consumes the injected failure)
+				for failNext.Load() && time.Now().Before(deadline) {
+					time.Sleep(100 * time.Microsecond)
+				}
+			}
 			time.Sleep(300 * time.Microsecond)
 			got := wireIDs(s, from)
 			atomic.AddInt64(&nResent, int64(len(got)))
